@@ -71,6 +71,50 @@ def deep_tree(rng, pids, label, renumber):
             "xyz": [[float(i), float((a * i) % 11), float((b * i) % 7)] for i in range(n)], "r": [1.0] * n}
 
 
+COINCIDE_MODES = ["tips-repeat-parent", "some-tips-repeat-parent", "runs-repeat-parent", "subtree-at-one-point", "all-points-coincide", "depth-on-a-line"]
+
+
+def coincide(rng, t, mode):
+    """zero-length segments: the same tree with sample points that repeat the position of their parent (duplicate consecutive
+    points are common in traced reconstructions), up to a whole subtree / the whole tree sitting at one point, and trees laid out
+    by depth on a line (siblings coincide, all paths of equal depth tie in length).  The property is stated for all trees: the
+    decomposition is a matter of the parent table, and the longest root-to-tip path is still one of the root-to-tip paths."""
+    pids, n = t["pids"], t["n"]
+    kids = kids_of(pids)
+    order, depth = [0], {0: 0}
+    for v in order:                                   # parents before children, whatever the numbering
+        for c in kids.get(v, []):
+            depth[c] = depth[v] + 1
+            order.append(c)
+    xyz = [list(p) for p in t["xyz"]]
+    tips = [i for i in range(1, n) if i not in kids]
+    if mode == "tips-repeat-parent":
+        chosen = set(tips)
+    elif mode == "some-tips-repeat-parent":
+        chosen = {i for i in tips if rng.random() < 0.5} or set(tips[:1])
+    elif mode == "runs-repeat-parent":
+        q = rng.choice([0.3, 0.6, 0.85])
+        chosen = {i for i in range(1, n) if rng.random() < q}
+    elif mode == "subtree-at-one-point":
+        top = rng.randrange(1, n) if n > 1 else 0
+        chosen, stack = set(), list(kids.get(top, []))
+        while stack:
+            v = stack.pop(); chosen.add(v); stack.extend(kids.get(v, []))
+    elif mode == "all-points-coincide":
+        chosen = set(range(1, n))
+    else:
+        chosen = set()
+        step = float(rng.choice([1, 2, 5]))
+        xyz = [[xyz[0][0] + step * depth[i], xyz[0][1], xyz[0][2]] for i in range(n)]
+    for v in order:
+        if v in chosen:
+            xyz[v] = list(xyz[pids[v]])
+    out = dict(t)
+    out["xyz"] = xyz
+    out["class"] = f"zero-length-segments/{mode}"
+    return out
+
+
 class Decomp(Suite):
     name = "c08.decomp"
     case_timeout = 60.0      # the deep family takes 1-3 s per case on an idle machine; a timeout must never read as a violation
@@ -102,6 +146,26 @@ class Decomp(Suite):
                 pids = [-1] + [max(0, p - 1) for p in pids[2:]] if kind == "comb" else pids
             t = deep_tree(rng, pids, label, renumber=rng.random() < 0.3)
             out.append({"class": label, "tree": t, "big": True})
+        return out
+
+    def coincident_cases(self, rng, tier, widen):
+        """every mode of the zero-length-segment family on drawn shapes and sizes (guaranteed share in the quick tier), plain and
+        through the derivations the other cases use"""
+        out = []
+        reps = 3 if tier == "quick" and not widen else 10
+        pool = [n for n in gen.sizes(tier, widen) if 2 <= n <= 120]
+        k = rng.randrange(len(gen.SHAPES))
+        for mode in COINCIDE_MODES:
+            for _ in range(reps):
+                shape = gen.pick_shape(rng, k); k += 1
+                if shape in ("single", "two"):
+                    shape = rng.choice(["chain", "stem", "random", "binary"])
+                t = gen.tree_case(rng, rng.choice(pool), shape, numbering=rng.choice(["sorted", "root0"]), coords="lattice", types=rng.choice(["mixed", "anyroot"]))
+                t = coincide(rng, t, mode)
+                out.append({"class": t["class"], "tree": t})
+                if t["n"] >= 3 and rng.random() < 0.4:
+                    d = rng.choice(["sort", "copy-edit", f"redirect:{rng.randrange(1, t['n'])}"] + AS_BRANCH_TREE)
+                    out.append({"class": t["class"] + ("/as-" if d in AS_BRANCH_TREE else "/derived-") + d.split(":")[0], "tree": t, "derive": d})
         return out
 
     def cases(self, rng, tier, widen):
@@ -137,7 +201,7 @@ class Decomp(Suite):
                 out.append({"class": "named" + ("" if rt == 1 else "/nonsoma-root"), "tree": t})
                 if n >= 2:
                     out.append({"class": "named/as-branch-tree", "tree": t, "derive": AS_BRANCH_TREE[(n + rt) % 3]})
-        return out + self.deep_cases(rng, tier, widen)
+        return out + self.coincident_cases(rng, tier, widen) + self.deep_cases(rng, tier, widen)
 
     def run(self, case):
         from swcgeom.core import BranchTree
@@ -247,6 +311,12 @@ class Decomp(Suite):
         return out
 
     def oracle(self, case, res):
+        try:
+            return self._oracle(case, res)
+        except Exception as e:  # noqa: BLE001 - an output the clauses cannot even be evaluated on (wrong sizes, None, ids out of range) is not a decomposition
+            return [("malformed-output", f"pids={case['tree']['pids'] if case['tree']['n'] <= 40 else '…'}: the outputs cannot be judged ({type(e).__name__}: {str(e)[:160]})")]
+
+    def _oracle(self, case, res):
         t = case["tree"]
         if "exc" in res:
             return [("decomp-raises", f"{res['exc']}: {res.get('msg')}")]
@@ -291,7 +361,7 @@ class Decomp(Suite):
                 out.append(("branchtree-nodes", f"pids={pids}: branch tree has {len(pos)} nodes, expected root+furcations+tips = {want_nodes}"))
             else:
                 # edges: child's parent position = head of the branch ending at the child
-                head = {}
+                head, head_of = {}, {}
                 for i in want_nodes:
                     j = i
                     if i == 0:
@@ -300,7 +370,19 @@ class Decomp(Suite):
                     while j != 0 and nk(j) == 1:
                         j = pids[j]
                     head[tuple(float(c) for c in xyz[i])] = tuple(float(c) for c in xyz[j])
-                for k, p in enumerate(bt["pid"]):
+                    head_of[i] = j
+                distinct = len(set(head)) == len(want_nodes) - 1 and tuple(float(c) for c in xyz[0]) not in head
+                if not distinct:
+                    # coincident points: a node is not identified by its position; the joins are compared as a multiset of
+                    # (position of the node, position of the node it hangs from)
+                    want_j = sorted((tuple(float(c) for c in xyz[i]), tuple(float(c) for c in xyz[head_of[i]])) for i in want_nodes if i != 0)
+                    got_j = sorted((tuple(bt["xyz"][k]), tuple(bt["xyz"][p])) for k, p in enumerate(bt["pid"]) if 0 <= p < len(bt["xyz"]))
+                    roots = [k for k, p in enumerate(bt["pid"]) if p == -1]
+                    if len(roots) != 1 or tuple(bt["xyz"][roots[0]]) != tuple(float(c) for c in xyz[0]):
+                        out.append(("branchtree-edges", f"pids={pids}: the branch tree's root rows {roots} are not exactly the tree's root"))
+                    elif got_j != want_j:
+                        out.append(("branchtree-edges", f"pids={pids}: the branch tree's nodes are not joined as the branches join root, furcations and tips"))
+                for k, p in enumerate(bt["pid"] if distinct else []):
                     me = tuple(bt["xyz"][k])
                     if p == -1:
                         if me != tuple(float(c) for c in xyz[0]):
@@ -360,6 +442,8 @@ class Decomp(Suite):
     def klass(self, case, res):
         t = case["tree"]
         nk0 = sum(1 for p in t["pids"] if p == 0)
+        if str(case.get("class", "")).startswith("zero-length-segments/"):
+            return "/".join(case["class"].split("/")[:2])          # the family and its mode, so that the evidence shows its share
         return f"root-children={min(nk0, 3)}{'+' if nk0 > 3 else ''}"
 
 
